@@ -562,7 +562,10 @@ func (r *RIB) addEntryInternal(ni string, op *spb.AFTOperation, oks, fails *[]*O
 	case opErr != nil:
 		// The operation can never be installed. If it was being held as a
 		// pending entry it must stop being retried, otherwise it is reported
-		// as failed again after every subsequent install.
+		// as failed again after every subsequent install. It is also marked
+		// in the stack, since a caller further up may still be walking a list
+		// of pending entries that was read before this one was removed.
+		installStack[op.GetId()] = true
 		r.rmPending(op.GetId())
 		*fails = append(*fails, &OpResult{
 			ID:    op.GetId(),
